@@ -311,6 +311,8 @@ class Frame(object):
             State.ctx.event('mutate', self.owner, State.where)
         if isinstance(v, SeriesCol):
             v = v.lane
+        if isinstance(v, values.GenList):
+            v = v.lane
         if not isinstance(v, Lane):
             v = Lane(to_term(v) if not isinstance(v, str) else ir.const(v), self.n)
         if key not in self.labels:
